@@ -60,6 +60,14 @@ clean, mut = worktree(), worktree()
 bdir = tempfile.mkdtemp(prefix="impbuild.")
 try:
     r = sh("git -C %s apply %s" % (mut, patch))
+    if r.returncode != 0:
+        # the scratch tree of the agent was older than /repo HEAD: 3-way merge, then keep the patch re-created against HEAD
+        r = sh("git -C %s apply --3way %s" % (mut, patch))
+        if r.returncode == 0 and not sh("git -C %s diff --name-only --diff-filter=U" % mut).stdout.strip():
+            open(patch + ".rebased", "w").write(sh("git -C %s diff HEAD" % mut).stdout)
+            sh("git -C %s reset -q" % mut)
+            patch = patch + ".rebased"
+            meta["rebased_on"] = meta["repo_head"]
     meta["applies"] = r.returncode == 0
     if not meta["applies"]:
         print("PATCH DOES NOT APPLY\n" + r.stdout); sys.exit(2)
